@@ -144,3 +144,73 @@ def rule(ctx, pid, what):
                   "the space-group object does not carry the tabulated %s for %d setting(s), e.g. %s: %s"
                   % (a, len(hits), hits[0][0] if hits else "", hits[0][1] if hits else ""), where,
                   sample={"attribute": a, "settings": seen} if a == "trans" else None)
+
+
+# ------------------------------------------------------------------------------------------------------------------ dispatch
+# Which table does a caller end up with?  The caller's own forwarding (what it hands to sg.sg, defaults included) is composed
+# with the constructor's reading of those arguments: the constructor is evaluated (E7) on the recorded call with the table
+# classes of sglib replaced by markers.  Decides e.g. that `multiplicity(x, sgname='R3r')` -- which forwards its own default
+# cell_choice='standard' -- still ends in the rhombohedral arm of Sg146.
+
+def constructor_request(bound):
+    """bound: the arguments sg.sg receives (dict with sgno / sgname / cell_choice; missing ones take the constructor's own
+    defaults) -> (class name requested from sglib, cell_choice handed to it) | ('<ExceptionName>', None)"""
+    from xfabsa.objeval import ObjEvaluator, PyRaise, Sym, exc_name_of
+    m = core.module("xfab/sg.py")
+    init = m.method("sg", "__init__")
+    node = ast.Constant(value=0)
+    node.lineno = init.lineno
+    requests = []
+
+    def ipol(name, args, kwargs, node_):
+        if name.startswith("xfab.sglib.Sg"):
+            o = ev.new_obj("table:" + name.rsplit(".", 1)[1])
+            kw = dict(kwargs)
+            if args:
+                kw["cell_choice"] = args[0]
+            requests.append((name.rsplit(".", 1)[1], kw.get("cell_choice", "<default>")))
+            for a in tables.SG_ATTRS:
+                o.attrs[a] = [Rat.const(1), Rat.const(2)] if a in ("syscond", "rot", "trans") else Sym("%s@" % a, "other")
+            return o
+        return NotImplemented
+    ev = ObjEvaluator(m, inline=set(), import_policy=ipol, max_depth=8)
+    params = [a.arg for a in init.args.args][1:]
+    kwargs = {k: v for k, v in bound.items() if k in params}
+    try:
+        ev.instantiate("sg", [], kwargs, node)
+    except (PyRaise, RaiseReached) as e:
+        return "<%s>" % exc_name_of(e), None
+    if len(requests) != 1:
+        return "<%d table objects>" % len(requests), None
+    return requests[0]
+
+
+DISPATCH_CASES = [
+    # (what the user passes, (class, setting) the user means)
+    ({"sgname": "R3"}, ("Sg146", "standard")),
+    ({"sgname": "R3r"}, ("Sg146", "rhombohedral")),
+    ({"sgname": "R -3 c r"}, ("Sg167", "rhombohedral")),
+    ({"sgname": "R-3ch"}, ("Sg167", "standard")),
+    ({"sgno": Rat.const(146)}, ("Sg146", "standard")),
+    ({"sgno": Rat.const(146), "cell_choice": "rhombohedral"}, ("Sg146", "rhombohedral")),
+    ({"sgname": "P 21/c"}, ("Sg14", "standard")),
+]
+
+
+def dispatch_rule(ctx, pid, what, run_caller, where):
+    """run_caller(user keywords) -> the arguments sg.sg received from the caller (dict, positional ones bound to their names);
+    the constructor must turn them into the table the user means (R...r names select rhombohedral axes whatever default the
+    caller forwards; a number selects the setting by cell_choice)"""
+    ctx.rule("setting", "%s: the caller's forwarding composed with sg.sg's reading of the arguments ends in the table the user names" % what)
+    for user, want in DISPATCH_CASES:
+        bound = run_caller(dict(user))
+        label = ",".join("%s=%s" % (k, (v if isinstance(v, str) else v.key())) for k, v in sorted(user.items()))
+        if bound is None:
+            raise AnalysisError("%s: no space-group look-up recorded for %s" % (what, label))
+        got = constructor_request(bound)
+        okc = got[0] == want[0] and (got[1] == want[1] or (want[1] == "standard" and got[1] in ("standard", "<default>")))
+        ctx.check(okc, "%s:setting:%s:%s" % (pid, what, label.replace(" ", "")),
+                  "%s(%s) ends in %s with cell_choice %r; the user means %s, %s axes (sg.sg received %s)"
+                  % (what, label, got[0], got[1], want[0], want[1],
+                     {k: (v if isinstance(v, (str, type(None))) else getattr(v, "key", lambda: v)()) for k, v in sorted(bound.items())}),
+                  where)
